@@ -102,7 +102,8 @@ def _impl_fit(case):
         ext = fitcase.make_extinction(case['ext'])
         try:
             fit(data, ['F%d' % j for j in range(nb)], np.array(theta) * u.arcsec, d, out, n_data_min=case['nmin'], extinction_law=ext,
-                av_range=tuple(case['av_range']), distance_range=np.array(dr) * u.kpc, output_format=tuple(case['sel']), output_convolved=case['convolved'])
+                av_range=tuple(case['av_range']), distance_range=None if (case['mode'] == '2d' and case.get('no_drange')) else np.array(dr) * u.kpc,
+                output_format=tuple(case['sel']), output_convolved=case['convolved'])
         except ValueError as e:
             if case.get('bad_at') is None:
                 raise
